@@ -95,3 +95,9 @@ func VHJSONLoad() {
 	c, _ := VGQueue()
 	containers.VJSONLoad(vJSON(c))
 }
+
+// VHHistory: D operations in a row from the constructor (see VMapHistory).
+func VHHistory() {
+	q := New[int](v.Cfg("c"))
+	containers.VLinHistory(containers.VLin{Name: "CircularBuffer", C: q, Push: q.Enqueue, Pop: q.Dequeue, Peek: q.Peek, Cap: q.maxSize, Full: q.Full, Inv: func() { VInv(q) }})
+}
